@@ -259,6 +259,9 @@ func printResult(r *FuncResult, verbose bool) {
 	for _, o := range r.Obls {
 		if o.Status != "unsat" {
 			fmt.Printf("   FAILED %-60s -> %s [%s] %s %s\n", o.Name, o.Status, o.Where, o.Solver, o.Note)
+			if verbose && o.Model != "" {
+				fmt.Println("      model:", strings.ReplaceAll(o.Model, "\n", "\n             "))
+			}
 		} else if verbose {
 			fmt.Printf("   ok     %-60s (%s, %d ms)\n", o.Name, o.Solver, o.Millis)
 		}
@@ -286,6 +289,7 @@ func runSolverLimited(solver, file string, timeout time.Duration) solverResult {
 }
 
 func (e *Engine) discharge(res *FuncResult, t *tr, body string, opt *Options) {
+	var vmu sync.Mutex
 	if len(res.Obls) == 0 && len(t.returns) == 0 {
 		return
 	}
@@ -338,13 +342,23 @@ func (e *Engine) discharge(res *FuncResult, t *tr, body string, opt *Options) {
 		// vacuity: with everything assumed, is any return reachable?
 		if len(t.returns) > 0 {
 			full := sb.String()
-			go func() {}()
-			vf := writeScratch(base+"_vac.smt2", header("z3-new", 2*time.Second)+full+fmt.Sprintf("(assert (or %s))\n(check-sat)\n", strings.Join(t.returns, " ")))
-			vr := runSolverLimited("z3-new", vf, 3*time.Second)
-			res.SolverMs += vr.millis
-			if len(vr.lines) > 0 && vr.lines[0] == "unsat" && len(vr.errors) == 0 {
-				res.Vacuous = append(res.Vacuous, "no return is reachable under the contract's assumptions (contradictory requires / assumed contracts)")
+			probe := fmt.Sprintf("(assert (or %s))\n(check-sat)\n", strings.Join(t.returns, " "))
+			var vwg sync.WaitGroup
+			for _, solver := range []string{"z3-new", "cvc5"} {
+				vwg.Add(1)
+				go func(solver string) {
+					defer vwg.Done()
+					vf := writeScratch(base+"_vac_"+solver+".smt2", header(solver, 3*time.Second)+full+probe)
+					vr := runSolverLimited(solver, vf, 4*time.Second)
+					vmu.Lock()
+					defer vmu.Unlock()
+					res.SolverMs += vr.millis
+					if len(vr.lines) > 0 && vr.lines[0] == "unsat" && len(vr.errors) == 0 {
+						res.Vacuous = append(res.Vacuous, "no return is reachable under the contract's assumptions: contradictory requires / assumed contracts / axioms ("+solver+")")
+					}
+				}(solver)
 			}
+			defer vwg.Wait()
 		}
 	}
 	query := func(o *Obligation) string {
